@@ -38,7 +38,10 @@ Theorem C14_fan_out_spec :
           | Some (r, q) =>
               assoc_get String.eqb name (n_members n') =
               Some
-                (r, if negb (name =? n_addr n)%string && (all || role_eqb r Secondary) then q ++ [line] else q)
+                (r,
+                 if negb (name =? n_addr n)%string && (all || role_eqb r Secondary)
+                 then if is_nosender q then q else q ++ [line]
+                 else q)
           | None => assoc_get String.eqb name (n_members n') = None
           end) /\
          map fst (n_members n') = map fst (n_members n) /\
